@@ -335,4 +335,71 @@ Section C10.
     foldM (fun acc idx => do l <- nth_res (f_layers b) idx; do p <- blayer_parameters l; Ok (acc + p))
           (seq 0 (length (f_coupled b))) 0.
   Proof. reflexivity. Qed.
+
+  (* ---- the network's update: every feedback block of the updated network is tied ---- *)
+  Definition blocks (P : feedback -> Prop) (ls : list (layer N)) : Prop :=
+    Forall (fun l => match l with LFeedback b => P b | _ => True end) ls.
+
+  Theorem net_update_tied (n n' : network N) stepnr wgs bgs :
+    blocks wfb (n_layers n) -> update n stepnr wgs bgs = Ok n' ->
+    blocks (fun b => wfb b /\ Tied b) (n_layers n').
+  Proof.
+    intros Hw H. unfold update in H.
+    match type of H with (do st <- ?F; _) = _ => destruct F as [st|] eqn:E; [|discriminate] end.
+    cbn [bind] in H. injection H as <-. cbn [n_layers].
+    assert (Hr : blocks wfb (rev (n_layers n))).
+    { apply Forall_forall. intros l Hl. apply in_rev in Hl. exact (proj1 (Forall_forall _ _) Hw l Hl). }
+    revert E. generalize (n_optimizer n). generalize (seq 0 (length (n_layers n))).
+    assert (Hnil : blocks (fun b => wfb b /\ Tied b) []) by constructor.
+    revert Hnil. generalize (@nil (layer N)). revert st Hr. generalize (rev (n_layers n)).
+    induction l as [|lyr ls IH]; intros st Hr acc Hacc idx o E.
+    - destruct idx; cbn [combine foldM] in E; injection E as <-; exact Hacc.
+    - destruct idx as [|i idx]; [cbn [combine foldM] in E; injection E as <-; exact Hacc|].
+      cbn [combine foldM] in E. inversion Hr as [|? ? Hl Hls]; subst.
+      match type of E with (do s1 <- ?F; _) = _ => destruct F as [[o1 acc1]|] eqn:E1; [|discriminate] end.
+      cbn [bind] in E. refine (IH st Hls acc1 _ idx o1 E). clear E IH.
+      cbn [fst snd] in E1.
+      destruct lyr as [d|c|dc|m|b].
+      + destruct (nth_res wgs i) as [wg|]; [|discriminate]. cbn [bind] in E1.
+        destruct (nth_res bgs i) as [bg|]; [|discriminate]. cbn [bind] in E1.
+        destruct wg; try discriminate.
+        match type of E1 with (do r <- ?F; _) = _ => destruct F as [r|]; [|discriminate] end.
+        cbn [bind] in E1. injection E1 as _ <-. constructor; [exact I|exact Hacc].
+      + destruct (nth_res wgs i) as [wg|]; [|discriminate]. cbn [bind] in E1.
+        destruct wg; try discriminate.
+        match type of E1 with (do r <- ?F; _) = _ => destruct F as [r|]; [|discriminate] end.
+        cbn [bind] in E1. injection E1 as _ <-. constructor; [exact I|exact Hacc].
+      + destruct (nth_res wgs i) as [wg|]; [|discriminate]. cbn [bind] in E1.
+        destruct wg; try discriminate.
+        match type of E1 with (do r <- ?F; _) = _ => destruct F as [r|]; [|discriminate] end.
+        cbn [bind] in E1. injection E1 as _ <-. constructor; [exact I|exact Hacc].
+      + injection E1 as _ <-. constructor; [exact I|exact Hacc].
+      + destruct (nth_res wgs i) as [wg|]; [|discriminate]. cbn [bind] in E1.
+        destruct (nth_res bgs i) as [bg|]; [|discriminate]. cbn [bind] in E1.
+        destruct wg; try discriminate. destruct bg as [bg|]; try discriminate.
+        destruct bg; try discriminate.
+        match type of E1 with (do r <- ?F; _) = _ => destruct F as [b'|] eqn:Eb; [|discriminate] end.
+        cbn [bind] in E1. injection E1 as _ <-. constructor; [|exact Hacc].
+        exact (update_tied _ _ _ Hl Eb).
+  Qed.
+
+  Lemma blocks_weaken (P Q : feedback -> Prop) ls : (forall b, P b -> Q b) -> blocks P ls -> blocks Q ls.
+  Proof.
+    intros PQ H. eapply Forall_impl; [|exact H]. intros l Hl. destruct l; try exact I. exact (PQ _ Hl).
+  Qed.
+
+  (* any number of network training steps, with any gradients, keeps every block of the network tied *)
+  Theorem net_tied_forever (n n' : network N)
+          (steps : list (Z * list (grad N) * list (option (bgrad N)))) :
+    blocks (fun b => wfb b /\ Tied b) (n_layers n) ->
+    foldM (fun m (s : Z * list (grad N) * list (option (bgrad N))) =>
+             update m (fst (fst s)) (snd (fst s)) (snd s)) steps n = Ok n' ->
+    blocks (fun b => wfb b /\ Tied b) (n_layers n').
+  Proof.
+    revert n; induction steps as [|s steps IH]; intros n Hn H; cbn [foldM] in H.
+    - injection H as <-. exact Hn.
+    - destruct (update n (fst (fst s)) (snd (fst s)) (snd s)) as [n1|] eqn:E; [|discriminate].
+      cbn [bind] in H. refine (IH n1 _ H).
+      exact (net_update_tied _ _ _ _ (blocks_weaken _ (fun b Hb => proj1 Hb) Hn) E).
+  Qed.
 End C10.
